@@ -7,6 +7,8 @@ CHECKS = {
          "Lean 4 proof (induction over the file list) + cli correspondence + CLI oracle"),
  "C05": ("4.5", "Lean theorem lex_total: the tokenizer model returns tokens and diagnostics for every string (no KeyError, fuel never exhausted: every round consumes input) — full strength for part (a); part (b) (whole pipeline) is decided by the engine-loop theorems (progress/termination of Registry.run for any rule table whose rules return) plus an oracle over token prefixes and token edits of conforming/violating programs with crash/hang signatures; unported rules are assumptions",
          "Lean 4 proof (refinement + well-founded fuel) + lex correspondence + pipeline fault search"),
+ "C06": ("4.6", "Lean theorems: for every permutation of the rules directory listing the order of the primaries and of every dependency list is the one the real code computed (stable sort, pairwise distinct priorities and names — obligations re-checked on the regenerated rule table), and frame facts regenerated from the AST show no state shared between files (class-level mutable attributes, module-level writes, globals); 'alone = twice = after any history = any order' is validated by running every file alone in a fresh interpreter and inside random/targeted histories and permuted listings (partial: not proved end to end)",
+         "Lean 4 proof (uniqueness of a stable sort under injective keys) + frame-fact obligations + history/permutation differential runs"),
  "C07": ("4.7", "Lean theorems about the loop of Registry.run for EVERY rule table (the rule decisions are universally quantified): consumed statements and unrecognised tokens partition the token list (each index covered exactly once), every statement consumes >= 1 token, with debug=0 a run that reaches a verdict has no unrecognised token (nothing dropped silently), the loop terminates whenever rule calls return; the conforming-file alignment and depth clauses depend on unported rules and are checked by an oracle on the observed trace (partial)",
          "Lean 4 proof (loop invariant: cover count = 1) + engine-trace correspondence"),
  "C08": ("4.8", "Lean theorems: Error.__lt__ restricted to diagnostics with a highlight is a strict weak order for all positions/names, the printed order is ascending in the displayed (line, col) with ties by code, sorting is a permutation, status OK iff only Notices, JSON document projects exactly onto the humanized document, every lexer diagnostic has a highlight and a catalogue code; tied by sort/fmt correspondences (byte-exact text) and the regenerated catalogue",
